@@ -7,13 +7,13 @@ import (
 type tokKind int
 
 const (
-	tEOF tokKind = iota
-	tIdent         // unquoted identifier or keyword, lower-cased in val
-	tQIdent        // "quoted identifier"
-	tNumber        // integer or decimal literal, text in val
-	tString        // 'string' (also E'..' and $$..$$), decoded in val
-	tParam         // $n, n in num
-	tOp            // operator or punctuation, text in val
+	tEOF    tokKind = iota
+	tIdent          // unquoted identifier or keyword, lower-cased in val
+	tQIdent         // "quoted identifier"
+	tNumber         // integer or decimal literal, text in val
+	tString         // 'string' (also E'..' and $$..$$), decoded in val
+	tParam          // $n, n in num
+	tOp             // operator or punctuation, text in val
 )
 
 type token struct {
@@ -94,6 +94,9 @@ func lex(src string) ([]token, error) {
 			if !closed {
 				return nil, errf(codeSyntax, "unterminated quoted identifier")
 			}
+			if sb.Len() > 63 {
+				return nil, unsupported("identifiers longer than 63 bytes not implemented")
+			}
 			toks = append(toks, token{kind: tQIdent, val: sb.String(), pos: i})
 			i = j
 		case c == '$':
@@ -155,6 +158,10 @@ func lex(src string) ([]token, error) {
 			for j < n && (isIdentStart(src[j]) || (src[j] >= '0' && src[j] <= '9') || src[j] == '$') {
 				j++
 			}
+			if j-i > 63 {
+				// PostgreSQL truncates identifiers to 63 bytes (with a NOTICE)
+				return nil, unsupported("identifiers longer than 63 bytes not implemented")
+			}
 			toks = append(toks, token{kind: tIdent, val: strings.ToLower(src[i:j]), pos: i})
 			i = j
 		case c == '(' || c == ')' || c == ',' || c == ';' || c == '[' || c == ']' || c == '.':
@@ -210,7 +217,7 @@ func isOpChar(c byte) bool {
 	return strings.IndexByte("+-*/<>=~!@#%^&|`?", c) >= 0
 }
 
-// lexQuoted reads a single-quoted string starting at src[i] == '\''.
+// lexQuoted reads a single-quoted string starting at src[i] == '\”.
 func lexQuoted(src string, i int, escapes bool) (string, int, error) {
 	n := len(src)
 	j := i + 1
